@@ -86,7 +86,7 @@ func serializeIdentifier(value string) string {
 	case '\f':
 		suffix = `\C `
 	case '0', '1', '2', '3', '4', '5', '6', '7', '8', '9':
-		suffix = fmt.Sprintf("\\%X", c)
+		suffix = fmt.Sprintf("\\%X ", c) // the space ends the escape: a following hex digit must not extend it
 	default:
 		if c > 0x7F {
 			suffix = string(c)
